@@ -357,9 +357,18 @@ class Inliner:
             return None
         prelude, body = b
         # make every path end in an explicit return, all in tail position
-        body = _tailify(body + [ast.copy_location(ast.Return(value=None), s)])
-        if body is None:
+        tail = _tailify(body + [ast.copy_location(ast.Return(value=None), s)])
+        if tail is None:
+            if kind in ('assign', 'expr'):
+                new = self._loop_return_form(body, s, kind)
+                if new is None:
+                    return None
+                for n in prelude + new:
+                    ast.fix_missing_locations(n)
+                self.count += 1
+                return prelude + new
             return None
+        body = tail
 
         def loc(n):
             return ast.copy_location(n, s)
@@ -402,6 +411,61 @@ class Inliner:
             ast.fix_missing_locations(n)
         self.count += 1
         return prelude + (new or [loc(ast.Pass())])
+
+    def _loop_return_form(self, body, s, kind):
+        """callee = pre ; loop with `return E` at loop depth 1 and no break ;
+        post (tail-structured).  `x = h(..)` becomes pre ; loop with the
+        returns turned into `x = E; break` ; else: post with its returns
+        turned into assignments"""
+        idx = [i for i, st in enumerate(body)
+               if isinstance(st, (ast.For, ast.While)) and _has(st, ast.Return)]
+        if len(idx) != 1:
+            return None
+        i = idx[0]
+        pre, loop, post = body[:i], body[i], body[i + 1:]
+        if any(_has(st, ast.Return) for st in pre):
+            return None
+        # no break of its own, returns not inside nested loops / try
+        for x in ast.walk(loop):
+            if isinstance(x, ast.Break):
+                return None
+        for st in ast.walk(loop):
+            if st is not loop and isinstance(st, (ast.For, ast.While, ast.Try)) \
+                    and _has(st, ast.Return):
+                return None
+        post_t = _tailify(post + [ast.copy_location(ast.Return(value=None), s)])
+        if post_t is None:
+            return None
+        tgt = s.targets[0] if kind == 'assign' else None
+
+        def mk(v, r):
+            out = []
+            if tgt is not None:
+                out.append(ast.copy_location(ast.Assign(
+                    targets=[copy.deepcopy(tgt)],
+                    value=v if v is not None else ast.Constant(value=None),
+                    lineno=r.lineno), r))
+            elif v is not None and _has(v, ast.Call):
+                out.append(ast.copy_location(ast.Expr(value=v), r))
+            return out
+
+        def in_loop(stmts):
+            out = []
+            for st in stmts:
+                if isinstance(st, ast.Return):
+                    out += mk(st.value, st) + [ast.copy_location(ast.Break(),
+                                                                 st)]
+                    return out
+                for fld in ('body', 'orelse'):
+                    if hasattr(st, fld) and isinstance(getattr(st, fld), list):
+                        setattr(st, fld, in_loop(getattr(st, fld)))
+                out.append(st)
+            return out
+        loop = copy.deepcopy(loop)
+        orelse = list(loop.orelse)
+        loop.body = in_loop(loop.body)
+        loop.orelse = orelse + self._replace_returns(post_t, mk)
+        return pre + [loop]
 
     def _falls_through_to_none(self, body):
         """some path reaches the end of the (tail-structured) body without a
@@ -488,6 +552,90 @@ def _self_path(e):
     return n >= 1 and isinstance(e, ast.Name) and e.id == 'self'
 
 
+_MUTATING = {'append', 'extend', 'insert', 'pop', 'remove', 'clear', 'sort',
+             'reverse', 'update', 'setdefault', 'popitem', 'add', 'discard',
+             'put', 'appendleft', 'popleft'}
+_QUIET_SELF = ('self._log.', 'self._prof.', 'self._rep.', 'self._logger.')
+
+
+def _stale_between(fn, def_stmt, name, v):
+    """would the value of expression v (sampled at def_stmt into `name`) differ
+    from v evaluated at a use of `name`?  Conservative (True = may be stale):
+    v reads object contents (attribute, subscript, call, membership) and
+    (a) a use sits in a loop the definition is outside of, or (b) between the
+    definition and a use (pre-order) there is a store through, a mutating
+    call on, or a call receiving one of the names v reads (any self-method
+    call when v reads through self)."""
+    content = any(isinstance(x, (ast.Attribute, ast.Subscript, ast.Call))
+                  or (isinstance(x, ast.Compare) and any(
+                      isinstance(o, (ast.In, ast.NotIn)) for o in x.ops))
+                  for x in ast.walk(v))
+    if not content:
+        return False
+    roots = {x.id for x in ast.walk(v) if isinstance(x, ast.Name)}
+    order = {}
+    loops = {}
+
+    def number(node, chain):
+        order[id(node)] = len(order)
+        loops[id(node)] = chain
+        for ch in ast.iter_child_nodes(node):
+            if isinstance(ch, (ast.FunctionDef, ast.AsyncFunctionDef,
+                               ast.Lambda)):
+                # closures run later: a use in one may see a stale value
+                for x in ast.walk(ch):
+                    order[id(x)] = len(order)
+                    loops[id(x)] = chain + ('closure',)
+                continue
+            number(ch, chain + ((id(node),) if isinstance(
+                node, (ast.For, ast.While)) and ch in node.body else ()))
+    number(fn, ())
+    d0 = max(order[id(x)] for x in ast.walk(def_stmt) if id(x) in order)
+    dchain = loops[id(def_stmt)]
+    uses = [x for x in ast.walk(fn) if isinstance(x, ast.Name) and
+            x.id == name and isinstance(x.ctx, ast.Load)]
+    if not uses:
+        return False
+    last = 0
+    for u in uses:
+        if id(u) not in order:
+            return True
+        if order[id(u)] < d0:
+            return True                     # use before definition (loop)
+        if any(h not in dchain for h in loops[id(u)]):
+            return True
+        last = max(last, order[id(u)])
+    for x in ast.walk(fn):
+        o = order.get(id(x))
+        if o is None or not (d0 < o <= last):
+            continue
+        if isinstance(x, (ast.Attribute, ast.Subscript)) and \
+                isinstance(x.ctx, (ast.Store, ast.Del)):
+            r = x
+            while isinstance(r, (ast.Attribute, ast.Subscript)):
+                r = r.value
+            if isinstance(r, ast.Name) and r.id in roots:
+                return True
+        if isinstance(x, ast.Call):
+            d = dotted(x.func)
+            if isinstance(x.func, ast.Attribute):
+                r = x.func.value
+                while isinstance(r, (ast.Attribute, ast.Subscript)):
+                    r = r.value
+                if isinstance(r, ast.Name) and r.id in roots:
+                    if r.id == 'self':
+                        if not d.startswith(_QUIET_SELF):
+                            return True
+                    elif x.func.attr in _MUTATING:
+                        return True
+            for a in list(x.args) + [k.value for k in x.keywords]:
+                if isinstance(a, ast.Name) and a.id in roots and \
+                        a.id != 'self' and not d.startswith(_QUIET_SELF) and \
+                        d not in _PURE_BUILTINS:
+                    return True
+    return False
+
+
 def propagate(fn):
     """substitute single-assignment locals holding a pure test expression or
     a `self.<attr>` path into their uses"""
@@ -526,6 +674,8 @@ def propagate(fn):
             ok = unparse(v) not in attr_stores and not any(
                 a.startswith(unparse(v) + '.') or unparse(v).startswith(a + '.')
                 for a in attr_stores)
+        if ok and _stale_between(fn, lst[0], name, v):
+            ok = False
         if ok:
             mapping[name] = v
     if not mapping:
@@ -620,6 +770,170 @@ def desugar_comprehensions(fn):
 
 
 # ------------------------------------------------------------------------------
+# table dispatch -> if-chain
+#
+def _table_of(prog, finfo, expr, local_tables):
+    """dict literal behind `expr` (inline literal, single-assignment local,
+    class attribute, module constant), or None"""
+    if isinstance(expr, ast.Dict):
+        return expr
+    if isinstance(expr, ast.Name):
+        if expr.id in local_tables:
+            return local_tables[expr.id]
+        vals = finfo.module.assigns.get(expr.id)
+        if vals and len(vals) == 1 and isinstance(vals[0], ast.Dict):
+            return vals[0]
+    if isinstance(expr, ast.Attribute) and isinstance(expr.value, ast.Name) \
+            and finfo.cls is not None:
+        if expr.value.id in ('self', 'cls') or \
+                expr.value.id in [k.name for k in prog.mro(finfo.cls)]:
+            for k in prog.mro(finfo.cls):
+                v = k.consts.get(expr.attr)
+                if isinstance(v, ast.Dict):
+                    return v
+    return None
+
+
+def _lookup(prog, finfo, e, local_tables):
+    """(table, key expr, default expr or None, has_default) for
+    T.get(K[, D]) / T[K]"""
+    if isinstance(e, ast.Call) and isinstance(e.func, ast.Attribute) and \
+            e.func.attr == 'get' and 1 <= len(e.args) <= 2 and not e.keywords:
+        t = _table_of(prog, finfo, e.func.value, local_tables)
+        if t is not None:
+            return t, e.args[0], (e.args[1] if len(e.args) == 2 else
+                                  ast.Constant(value=None)), True
+    if isinstance(e, ast.Subscript) and isinstance(e.ctx, ast.Load):
+        t = _table_of(prog, finfo, e.value, local_tables)
+        if t is not None:
+            return t, e.slice, None, False
+    return None
+
+
+def expand_tables(prog, finfo):
+    """x = TABLE.get(KEY, DEFAULT)  ->  if KEY == k1: x = v1 elif ... else:
+    x = DEFAULT;  and calls h(args) of a name h bound by such a lookup are
+    expanded into the chain of the table's callables"""
+    fn = finfo.node
+    changed = False
+    local_tables = {}
+    counts = {}
+    for x in walk(fn):
+        if isinstance(x, ast.Name) and isinstance(x.ctx, ast.Store):
+            counts[x.id] = counts.get(x.id, 0) + 1
+    for x in walk(fn):
+        if isinstance(x, ast.Assign) and len(x.targets) == 1 and \
+                isinstance(x.targets[0], ast.Name) and \
+                isinstance(x.value, ast.Dict) and \
+                counts.get(x.targets[0].id) == 1:
+            local_tables[x.targets[0].id] = x.value
+    lookups = {}          # name -> (table, key, default, has_default)
+    for x in walk(fn):
+        if isinstance(x, ast.Assign) and len(x.targets) == 1 and \
+                isinstance(x.targets[0], ast.Name) and \
+                counts.get(x.targets[0].id) == 1:
+            lk = _lookup(prog, finfo, x.value, local_tables)
+            if lk and all(k is not None and isinstance(k, (ast.Constant,
+                          ast.Attribute, ast.Name)) for k in lk[0].keys) and \
+                    len(lk[0].keys) <= 12:
+                lookups[x.targets[0].id] = lk
+
+    def key_stable(key):
+        # the key must denote the same value at the lookup and at the use:
+        # names that are bound at most once in the function
+        return all(counts.get(n.id, 0) <= 1 or n.id == 'self'
+                   for n in ast.walk(key) if isinstance(n, ast.Name))
+
+    def chain(lk, make, at):
+        table, key, default, has_default = lk
+        node = None
+        orelse = make(default) if has_default else []
+        for k, v in reversed(list(zip(table.keys, table.values))):
+            test = ast.Compare(left=copy.deepcopy(key), ops=[ast.Eq()],
+                               comparators=[copy.deepcopy(k)])
+            node = ast.If(test=test, body=make(v) or [ast.Pass()],
+                          orelse=orelse)
+            ast.copy_location(node, at)
+            orelse = [node]
+        for x in ast.walk(node):
+            if isinstance(x, (ast.expr, ast.stmt)) and not hasattr(x, 'lineno'):
+                ast.copy_location(x, at)
+        ast.fix_missing_locations(node)
+        return [node] if node is not None else None
+
+    def conv(s):
+        nonlocal changed
+        # value table: x = T.get(K, D)
+        if isinstance(s, ast.Assign) and len(s.targets) == 1 and \
+                isinstance(s.targets[0], ast.Name):
+            lk = lookups.get(s.targets[0].id)
+            if lk and _lookup(prog, finfo, s.value, local_tables) and \
+                    key_stable(lk[1]):
+                callable_vals = all(isinstance(v, (ast.Attribute, ast.Name,
+                                                   ast.Lambda))
+                                    for v in lk[0].values)
+                used_as_call = any(isinstance(c, ast.Call) and
+                                   isinstance(c.func, ast.Name) and
+                                   c.func.id == s.targets[0].id
+                                   for c in walk(fn))
+                if callable_vals and used_as_call:
+                    return None      # expanded at the call site
+                tgt = s.targets[0]
+
+                def mk(v):
+                    return [ast.Assign(targets=[copy.deepcopy(tgt)],
+                                       value=copy.deepcopy(v),
+                                       lineno=s.lineno)]
+                r = chain(lk, mk, s)
+                if r:
+                    changed = True
+                    return r
+        # callable table: h(args) / x = h(args) / return h(args)
+        call = None
+        if isinstance(s, ast.Expr) and isinstance(s.value, ast.Call):
+            call = s.value
+        elif isinstance(s, ast.Assign) and isinstance(s.value, ast.Call) and \
+                len(s.targets) == 1:
+            call = s.value
+        elif isinstance(s, ast.Return) and isinstance(s.value, ast.Call):
+            call = s.value
+        if call is not None and isinstance(call.func, ast.Name) and \
+                call.func.id in lookups and key_stable(lookups[call.func.id][1]):
+            lk = lookups[call.func.id]
+
+            def mk(v):
+                if isinstance(v, ast.Constant) and v.value is None:
+                    return []
+                c2 = copy.deepcopy(call)
+                c2.func = copy.deepcopy(v)
+                n2 = copy.deepcopy(s)
+                n2.value = c2
+                return [n2]
+            r = chain(lk, mk, s)
+            if r:
+                changed = True
+                return r
+        return None
+
+    def do_block(stmts):
+        out = []
+        for s in stmts:
+            for fld in ('body', 'orelse', 'finalbody'):
+                if hasattr(s, fld) and isinstance(getattr(s, fld), list) and \
+                        not isinstance(s, (ast.FunctionDef, ast.ClassDef)):
+                    setattr(s, fld, do_block(getattr(s, fld)))
+            if hasattr(s, 'handlers'):
+                for h in s.handlers:
+                    h.body = do_block(h.body)
+            r = conv(s)
+            out += r if r else [s]
+        return out
+    if lookups:
+        fn.body = do_block(fn.body)
+    return changed
+
+
+# ------------------------------------------------------------------------------
 #
 def normalized_program(prog, desugar=True):
     """a Program over the same sources with the normalisations applied
@@ -646,6 +960,9 @@ def normalized_program(prog, desugar=True):
         for f in list(all_funcs()):
             if desugar and desugar_comprehensions(f.node):
                 stats['desugared_functions'] += 1
+            if expand_tables(p2, f):
+                stats['expanded_tables'] = stats.get('expanded_tables', 0) + 1
+                any_change = True
             if inl.run_function(f):
                 any_change = True
         if not any_change:
@@ -654,6 +971,32 @@ def normalized_program(prog, desugar=True):
         if propagate(f.node):
             stats['propagated_functions'] += 1
     stats['inlined_calls'] = inl.count
+    # new helpers whose every call site was inlined are dead: drop them, so
+    # that sweeps over all methods do not see the extracted copy
+    referenced = set()
+    for m in p2.modules.values():
+        for x in ast.walk(m.tree):
+            if isinstance(x, ast.Attribute):
+                referenced.add(x.attr)
+            elif isinstance(x, ast.Name):
+                referenced.add(x.id)
+    for m in p2.modules.values():
+        def prune(body, owner):
+            keep = []
+            for s in body:
+                if isinstance(s, (ast.FunctionDef, ast.AsyncFunctionDef)):
+                    q = ('%s.%s' % (owner, s.name)) if owner else s.name
+                    if m.rel in known and q not in known[m.rel] and \
+                            s.name not in referenced and \
+                            not s.name.startswith('__'):
+                        stats['dropped_helpers'] = stats.get(
+                            'dropped_helpers', 0) + 1
+                        continue
+                if isinstance(s, ast.ClassDef):
+                    s.body = prune(s.body, s.name) or [ast.Pass()]
+                keep.append(s)
+            return keep
+        m.tree.body = prune(m.tree.body, None)
     # rebuild the model from the transformed trees (nested function tables
     # etc. refer to the old nodes)
     p3 = Program(prog.root, overlay=prog.overlay, trees=trees)
